@@ -10,7 +10,8 @@ enum { SK_MAXQ = 8 };
 // the scripted answers to the next send calls on client descriptors (one per send, in order)
 struct sk_outcomes { int n; int kind[SK_MAXQ]; long k[SK_MAXQ]; };
 void sk_reset(void);
-void sk_attach(int idx, int client_fd, int peer_fd);      // idx 0 = client A, 1 = client B
+enum { SK_NC = 4 };                                       // clients A..D (idx 0..3)
+void sk_attach(int idx, int client_fd, int peer_fd);      // idx 0 = client A, 1 = client B, ...
 void sk_tag_sends(int on);                                // prefix the send log entries with "A:" / "B:"
 void sk_detach_client(int idx);
 void sk_set_outcome(int kind, long k);                    // exactly one scripted answer (SK_NONE: none)
@@ -18,6 +19,8 @@ void sk_push_outcome(int kind, long k);
 void sk_get_outcomes(struct sk_outcomes* o);
 void sk_put_outcomes(const struct sk_outcomes* o);
 void sk_arm_event(int mode);                              // one scripted poll round for the next run()
+void sk_with_interrupt(int on);                           // SK_EV_SCRIPT: the interrupt event is part of the SAME epoll_wait batch
+int sk_interrupt_seen(void);                              // the kernel reported the interrupt event since the last sk_arm_event
 void sk_add_event(int idx, unsigned native);              // SK_EV_SCRIPT: descriptors reported, in this order
 void sk_disarm_event(void);
 void sk_peer_drain(int idx);
@@ -26,9 +29,11 @@ size_t sk_take_tx(int idx, unsigned char** p);
 size_t sk_take_peer(int idx, unsigned char** p);
 const char* sk_take_sendlog(void);
 // ordered event trace for the property monitor: the kernel adds one token per send call on a client descriptor
-//   S<idx>:<requested>:<returned>:<t|w|f>[u]   t = took <returned> bytes, w = would-block, f = failed / returned 0,
+//   S<idx>:<requested>:<returned>:<t|w|f|z>[u] t = took <returned> bytes, w = would-block, f = failed / returned 0,
+//                                             z = a request of 0 bytes answered 0 (nothing to take: not a failure of the connection),
 //                                             u = the script had no answer left for this call (answered would-block)
 // the harness adds its own tokens (callbacks, reactions, ...) with sk_trace_add; tokens are joined with ','
+//   O<idx> / I<idx>   epoll_wait asked the kernel, which finds the socket of client idx writable / finds unread input on it
 void sk_trace_add(const char* token);
 const char* sk_take_trace(void);                          // valid until the next call of sk_trace_add / sk_take_trace
 int sk_registered(int idx);
